@@ -139,6 +139,15 @@ def battery(o, probes, ppts):
     return out
 
 
+def point_behaviour(pt, obj, probes):
+    out = [lib.canon(lib.call(lambda: [pt.x, pt.y, pt.z])), lib.canon(lib.call(lambda: list(pt.pv()))), lib.canon(lib.call(lambda: list(Line(pt, Vector(1.0, 2.0, 3.0)).sv)))]
+    if not isinstance(obj, Point):
+        out.append(lib.canon(lib.call(lambda: pt in obj)))
+    for pr in probes[:2]:
+        out.append(lib.canon(lib.call(intersection, pt, pr)))
+    return out
+
+
 class MoveMachine(e2.Machine):
     prop = 'C07'
 
@@ -175,12 +184,14 @@ class MoveMachine(e2.Machine):
 
     def build(self, hist):
         lib.MODE = self.mode
+        lib.KEEP = []
         try:
             recv = lib.to_lib(self.base)
             if self.reversed_form:
                 recv = lib.construct(self.kind, lambda: -recv)      # the same point set, built in reversed form
         finally:
             lib.MODE = 'float'
+            args, lib.KEEP = lib.KEEP, None
         ret = None
         last_eq = None
         t = (0, 0, 0)
@@ -222,7 +233,7 @@ class MoveMachine(e2.Machine):
                 r1 = lib.call(recv.move, v)
                 ret = lib.call(recv.move, -v)
                 last_eq = ('B', ret, recv) if not isinstance(r1, lib.Raised) else ('B', r1, recv)
-        return {'recv': recv, 'ret': ret, 'last': last_eq, 'kept': kept, 'kept_t': kept_t}
+        return {'recv': recv, 'ret': ret, 'last': last_eq, 'kept': kept, 'kept_t': kept_t, 'args': args if self.kind not in ('Point', 'Plane') else []}
 
     def key(self, st, hist):
         ret = st['ret']
@@ -292,6 +303,15 @@ class MoveMachine(e2.Machine):
                         break
                 if lib.call(hash, kept) != kh:
                     bad('kept-copy', 'deepcopy-taken-earlier-hash-changed', 'hash(fresh)', 'different hash')
+        # the Points the receiver was constructed from are the caller's: wherever the receiver went, they still look and behave
+        # like freshly made Points with the coordinates the caller gave them (not claimed for Plane, which keeps the caller's
+        # Point as its support point by design of the pinned library and moves it along; C20 does not list Plane either)
+        for pt, coords in st.get('args', ())[:4]:
+            fp_ = Point(*coords)
+            ba, bf = point_behaviour(pt, f, probes), point_behaviour(fp_, f, probes)
+            if not near(ba, bf):
+                bad('constructor-argument', 'caller-point-changed-by-moving-the-object-built-from-it', bf, ba)
+                break
         for hname, o in handles:
             b = battery(o, probes, ppts)
             if len(b) != len(fresh_b):
